@@ -135,7 +135,43 @@ def run(ctx):
                                    "what": "a header row given at open time (XlsOptions) does not behave like the same option set afterwards, or cannot be changed back"})
         else:
             ctx.nontrivial("opt|%s|%s|%d|%d" % (p, hn, kk, jj))
+    # "changing the option affects only subsequent reads": no other call — in particular none that
+    # FAILS (unknown table, unknown sheet, index past the end) — may change the option in force:
+    # [hdr n, X, range s] must read what [hdr n, range s] reads
+    slines, smeta = [], []
+    seen_job = set()
+    for lid, f, p, hn, n, pr in meta:
+        if (f, p, hn) in seen_job or pr is None or not (pr[0][0] < n <= pr[1][0]):
+            continue
+        seen_job.add((f, p, hn))
+        nosuch = vlib.hexs("No such thing")
+        others = ["range " + nosuch, "formula " + nosuch, "at 4000", "formula " + hn, "wsall", "vba", "names"]
+        if f in LAZY:
+            others += ["ref " + nosuch, "atref 4000"]
+        if f in ("xlsx", "xls"):
+            others += ["merges " + nosuch, "merges " + hn]
+        if f == "xlsx":
+            others += ["table " + nosuch, "table " + nosuch, "tables", "allmerges"]
+        ctx.rng.shuffle(others)
+        must = [x for x in others if x.startswith("table ")][:1]
+        for j, x in enumerate(must + [x for x in others if not x.startswith("table ")][:3]):
+            slines.append("s%s_%d\topen\t%s\t%s\thdr %d;%s;range %s" % (lid, j, f, p, n, x, hn))
+            smeta.append(("s%s_%d" % (lid, j), lid, f, p, hn, n, x))
     impl = ctx.run_impl(lines)
+    simpl = ctx.run_impl(slines)
+    for sid, lid, f, p, hn, n, x in smeta:
+        a = (simpl.get(sid) or "abort").split(";;")
+        ref = (impl.get(lid) or "abort").split(";;")
+        ctx.traces += 1
+        ctx.count("option_survives_call:" + x.split(" ")[0])
+        case = "open %s %s hdr %d; %s; range %s" % (f, p, n, x, vlib.unhexs(hn))
+        if len(a) < 3 or len(ref) < 2:
+            ctx.violations.append({"case": case, "expected": "no panic", "actual": ";;".join(a)[:300], "model": "", "what": "the call sequence did not complete"})
+        elif a[2] != ref[1]:
+            ctx.violations.append({"case": case, "expected": ref[1][:400], "actual": a[2][:400], "model": "",
+                                   "what": "the header-row option in force was changed by an unrelated call (%s)" % x})
+        else:
+            ctx.nontrivial("surv|%s|%s|%d|%s" % (p, hn, n, x))
     mlines = []
     for lid, f, p, hn, n, pr in meta:
         box, vals, ids = ids_of(pr)
